@@ -108,7 +108,7 @@ static ssize_t ck_write(void* cv, const char* buf, size_t n) {
     L.ev("sink.write", (int64_t)c->pos, (int64_t)n, io.in_flush);
     if (!f) { errno = EIO; return 0; }
     if (sinkplan.eio_at_op >= 0 && (int64_t)k == sinkplan.eio_at_op) {
-        io.sink_fault_fired = true; SIM_COUNT("fault.sink_eio"); errno = EIO; return 0;
+        io.sink_fault_fired = true; SIM_COUNT("fault.sink_eio"); if (sinkplan.eio_errno != EIO) SIM_COUNT("fault.sink_eio_transient_errno"); errno = sinkplan.eio_errno; return 0;
     }
     if (sinkplan.flush_fail && io.in_flush > 0) {
         io.sink_fault_fired = true; SIM_COUNT("fault.sink_flush_fail"); errno = EIO; return 0;
